@@ -248,6 +248,11 @@ func fullCfg(lmtp bool) Cfg {
 
 var tripStrings = []string{"100%%", "50%off", "%s%d", "a%41b", "plain", "a+b", "a=b", "a b", "a\\b", "{x}", "x{41}", "\\x{41}", "+2B", "\x7f", "café", "日本", "\U0001F600", "a+", "+", "=", "<>", "a@b", "q+3Dr@s", "", "\t"}
 
+// UniSpaces: the non-ASCII code points for which unicode.IsSpace holds (Go's strings.Fields / TrimSpace
+// separators): U+0085, U+00A0 and the White_Space property above Latin-1
+var UniSpaces = []rune{0x85, 0xA0, 0x1680, 0x2000, 0x2001, 0x2002, 0x2003, 0x2004, 0x2005, 0x2006, 0x2007, 0x2008,
+	0x2009, 0x200A, 0x2028, 0x2029, 0x202F, 0x205F, 0x3000}
+
 func sp(s string) *string { return &s }
 
 func isASCII(s string) bool {
@@ -315,12 +320,20 @@ func GenTrip(rng *rand.Rand, thorough bool, emit func(*Sx)) {
 		calls := []TripCall{{Kind: "mail", Arg: a, MO: &smtp.MailOptions{UTF8: true}}, {Kind: "rcpt", Arg: a}, {Kind: "quit"}}
 		emit(RunTrip(TripCase{Cfg: cfg, Calls: calls, Extra: []*Sx{L(A("focus"), A("C14"))}}))
 	}
-	// known finding F29: a non-ASCII Unicode space inside a UTF-8 ORCPT (sent raw when SMTPUTF8 is offered)
-	for _, v := range []string{"x@y\u00a0", "x\u2003y@z", "\u3000x@y"} {
-		cfg := fullCfg(false)
-		ro := &smtp.RcptOptions{OriginalRecipientType: smtp.DSNAddressTypeUTF8, OriginalRecipient: v}
-		calls := []TripCall{{Kind: "mail", Arg: "sender@example.org"}, {Kind: "rcpt", Arg: "rcpt@example.net", RO: ro}, {Kind: "quit"}}
-		emit(RunTrip(TripCase{Cfg: cfg, Calls: calls, Extra: []*Sx{L(A("focus"), A("C14"))}}))
+	// the non-ASCII Unicode White_Space code points (unicode.IsSpace) in a UTF-8 ORCPT, each at the start, in the
+	// middle and at the end, server with / without SMTPUTF8 (unitext / xtext form); sent raw in the unitext form
+	// they were cut off by the server's strings.Fields / TrimSpace (formerly finding F29)
+	for _, utf8 := range []bool{true, false} {
+		for _, sp := range UniSpaces {
+			u := string(sp)
+			for _, v := range []string{u + "x@y", "x" + u + "y@z", "x@y" + u, u + "x" + u + "@" + u + u + "y" + u} {
+				cfg := fullCfg(false)
+				cfg.UTF8 = utf8
+				ro := &smtp.RcptOptions{OriginalRecipientType: smtp.DSNAddressTypeUTF8, OriginalRecipient: v}
+				calls := []TripCall{{Kind: "mail", Arg: "sender@example.org"}, {Kind: "rcpt", Arg: "rcpt@example.net", RO: ro}, {Kind: "quit"}}
+				emit(RunTrip(TripCase{Cfg: cfg, Calls: calls, Extra: []*Sx{L(A("focus"), A("C14"))}}))
+			}
+		}
 	}
 	// MailOptions.Body: unset, the three values, wrong case / unknown x server with / without BINARYMIME
 	// x Body alone / with every other MAIL option; after a non-BINARYMIME Body a whole transaction
